@@ -266,3 +266,90 @@ func ZZ_C16_go_call_shapes() {
 		zz.Assert(ri == want, "C16.go-shape/exactly-the-supplied-arguments/"+s.name)
 	}
 }
+
+// ZZ_C16_blocked_receiver: the receive forms when the receiver is already
+// blocked on an empty channel at the moment another goroutine sends or closes
+// (the sequential cases above only meet channels that were filled or closed
+// beforehand).  Forms: receive expression, one- and two-value receive
+// statement, for-in; channel unbuffered or buffered and empty; the other
+// goroutine closes, or sends n values and closes.
+func ZZ_C16_blocked_receiver() {
+	a, b, c := zz.Int64(), zz.Int64(), zz.Int64()
+	e := zzChanEnv(a, b, c)
+	elem := []string{"int64", "interface"}[zz.Choose(2)]
+	capv := []string{"", ", 1", ", 4"}[zz.Choose(3)]
+	nsend := zz.Choose(3)
+	sends := []string{"", "ch <- A; ", "ch <- A; ch <- B; "}[nsend]
+	// `gate` makes sure the producer only starts once the consumer is about to block
+	prod := "go func() { <-gate; " + sends + "close(ch) }()\n"
+	head := "ch = make(chan " + elem + capv + ")\ngate = make(chan int64)\n" + prod + "gate <- 1\n"
+	form := zz.Choose(4)
+	id := []string{"receive-expression", "receive-statement", "two-value-receive-statement", "for-in"}[form] + "/" + elem + "/cap" + capv + "/" + []string{"close", "send-close", "send-send-close"}[nsend]
+	zz.DeadlockIsViolation("terminates.C16.blocked-receiver/" + id)
+	zz.Budget(600000)
+	vals := []int64{a, b}[:nsend]
+	switch form {
+	case 0:
+		// nsend+1 receive expressions: the values in order, then nil
+		src := head + "out = []\nfor i = 0; i < " + []string{"1", "2", "3"}[nsend] + "; i++ { out += [<-ch] }\nout"
+		r, err := Execute(e, nil, src)
+		zz.Drain()
+		l, ok := r.([]interface{})
+		zz.Assert(err == nil && ok && len(l) == nsend+1, "C16.blocked-receiver/runs/"+id)
+		if ok && len(l) == nsend+1 {
+			for i, w := range vals {
+				x, isInt := l[i].(int64)
+				zz.Assert(isInt && x == w, "C16.blocked-receiver/every-value-once-in-order/"+id)
+			}
+			zz.Assert(l[nsend] == nil, "C16.blocked-receiver/receive-on-closed-yields-nil/"+id)
+		}
+	case 1, 2:
+		two := form == 2
+		stmt := "v = <-ch"
+		if two {
+			stmt = "v, ok = <-ch"
+		}
+		src := head + "out = []\nv = C\nok = 7\nfor i = 0; i < " + []string{"1", "2", "3"}[nsend] + "; i++ { " + stmt + "; out += [[v, ok]] }\nout"
+		r, err := Execute(e, nil, src)
+		zz.Drain()
+		l, ok := r.([]interface{})
+		zz.Assert(err == nil && ok && len(l) == nsend+1, "C16.blocked-receiver/runs/"+id)
+		if ok && len(l) == nsend+1 {
+			for i := 0; i <= nsend; i++ {
+				p, isPair := l[i].([]interface{})
+				zz.Assert(isPair && len(p) == 2, "C16.blocked-receiver/runs/"+id)
+				if !isPair || len(p) != 2 {
+					return
+				}
+				x, isInt := p[0].(int64)
+				if i < nsend {
+					zz.Assert(isInt && x == vals[i], "C16.blocked-receiver/every-value-once-in-order/"+id)
+					if two {
+						zz.Assert(p[1] == true, "C16.blocked-receiver/ok-true-for-a-delivered-value/"+id)
+					}
+				} else {
+					// closed and drained: the value variable keeps what it had
+					last := c
+					if nsend > 0 {
+						last = vals[nsend-1]
+					}
+					zz.Assert(isInt && x == last, "C16.blocked-receiver/value-variable-untouched-when-closed/"+id)
+					if two {
+						zz.Assert(p[1] == false, "C16.blocked-receiver/ok-false-when-closed/"+id)
+					}
+				}
+			}
+		}
+	case 3:
+		src := head + "out = []\nfor x in ch { out += x }\nout"
+		r, err := Execute(e, nil, src)
+		zz.Drain()
+		l, ok := zzIntList(r)
+		zz.Assert(err == nil && ok && len(l) == nsend, "C16.blocked-receiver/for-in-ends-at-close/"+id)
+		if ok && len(l) == nsend {
+			for i, w := range vals {
+				zz.Assert(l[i] == w, "C16.blocked-receiver/every-value-once-in-order/"+id)
+			}
+		}
+	}
+}
